@@ -1,0 +1,12 @@
+//go:build verif
+
+package iterator
+
+// SimYield is called at scheduling-relevant points when built with -tags verif.
+var SimYield func(site string)
+
+func simYield(site string) {
+	if f := SimYield; f != nil {
+		f(site)
+	}
+}
